@@ -61,8 +61,8 @@ Proof.
                (keep 1 = false -> keep 0 = true /\ keep 2 = true /\ keep 3 = true) /\
                (keep 2 = false -> keep 0 = true /\ keep 1 = true /\ keep 3 = true) /\
                (keep 3 = false -> keep 0 = true /\ keep 1 = true /\ keep 2 = true)).
-  { unfold keep, fc_skip_i. destruct iF as [j|]; [|repeat split; discriminate].
-    repeat split; intros Hq; apply negb_false_iff, Z.eqb_eq in Hq; subst j; reflexivity. }
+  { unfold keep, fc_skip_i. destruct iF as [j|]; [|split; [|split; [|split]]; discriminate].
+    split; [|split; [|split]]; intros Hq; apply negb_false_iff, Z.eqb_eq in Hq; subst j; repeat split; reflexivity. }
   destruct Hk as [Hk0 [Hk1 [Hk2 Hk3]]].
   cbn [filter]. destruct (keep 0) eqn:F0, (keep 1) eqn:F1, (keep 2) eqn:F2, (keep 3) eqn:F3;
     try (destruct (Hk0 eq_refl) as [? [? ?]]; discriminate); try (destruct (Hk1 eq_refl) as [? [? ?]]; discriminate);
@@ -148,6 +148,28 @@ Proof.
   { revert r HW Hh. induction ops as [|o t IH]; intros r HW Hh; cbn [foldM]; [eauto|].
     destruct Hh as [Hv Hn]. destruct (vstep_accepts r o HW Hv) as [r1 [H1 HW1]]. rewrite H1. cbn [bind]. apply IH; auto. }
   destruct H as [r' [H _]]. rewrite H. cbn. eauto.
+Qed.
+
+(* the data a VolumeMesh is built from is well-formed *)
+Lemma dedupF_In_sub seen l f : In f (dedupF seen l) -> In f l.
+Proof.
+  revert seen. induction l as [|g t IH]; cbn; intros seen H; [contradiction|].
+  destruct (existsb (lz_eqb (sortz g)) seen); [right; eauto|]. destruct H as [<-|H]; [left; auto|right; eauto].
+Qed.
+
+Theorem prepared_volume_WFv (V : list P) (C : list (list Z)) :
+  Forall (cell_ok (Zlen V)) C -> WFv (pr (prepare (mkraw V [] [] C))).
+Proof.
+  intros HC. unfold prepare. cbn [rf rc re rv].
+  destruct (prepare_edges (Zlen V) (complete_edges [] (complete_faces [] C))) as [es rb]. cbn [pr].
+  unfold WFv, nV. cbn [rv rc rf]. split; [exact HC|].
+  apply Forall_forall. intros f Hf. unfold complete_faces in Hf. destruct C as [|c0 C0]; [contradiction|].
+  cbn [app map] in Hf. apply dedupF_In_sub in Hf. apply in_flat_map in Hf as [c [Hc Hf]].
+  rewrite Forall_forall in HC. destruct (HC c Hc) as [L Hv].
+  destruct c as [|v0 [|v1 [|v2 [|v3 [|? ?]]]]]; try (unfold Zlen in L; cbn [length] in L; lia).
+  inversion Hv as [|? ? H0 Hv1]; subst. inversion Hv1 as [|? ? H1 Hv2]; subst.
+  inversion Hv2 as [|? ? H2 Hv3]; subst. inversion Hv3 as [|? ? H3 _]; subst.
+  cbn in Hf. destruct Hf as [<-|[<-|[<-|[<-|[]]]]]; repeat (apply Forall_cons || apply Forall_nil); auto.
 Qed.
 
 End Vol.
